@@ -2,6 +2,7 @@ package props
 
 import (
 	"fmt"
+	"regexp"
 	"strings"
 	"time"
 
@@ -404,6 +405,8 @@ func c02Run(r *core.Run) {
 	}
 }
 
+var issueInstantAttr = regexp.MustCompile(`IssueInstant\s*=\s*["']`)
+
 // tamperInstant rewrites the IssueInstant attribute in the start tag of the element
 // whose ID is id (content covered by that element's signature).
 func tamperInstant(xml, id string) (string, bool) {
@@ -421,11 +424,11 @@ func tamperInstant(xml, id string) (string, bool) {
 	}
 	en += i
 	tag := xml[st:en]
-	k := strings.Index(tag, "IssueInstant=")
-	if k < 0 {
+	loc := issueInstantAttr.FindStringIndex(tag)
+	if loc == nil {
 		return xml, false
 	}
-	k += len("IssueInstant=")
+	k := loc[1] - 1 // position of the opening quote
 	q := tag[k]
 	e := strings.IndexByte(tag[k+1:], q)
 	if e < 0 {
